@@ -112,6 +112,142 @@ func testRegistry(rt *rapid.T, st *RunStats) {
 		m.order = append(m.order, ti)
 		next++
 	}
+	// registerType registers one particular type now (it takes the next ID), whatever the drawn order says
+	registerType := func(ti int) bool {
+		if _, ok := m.ids[ti]; ok {
+			return true
+		}
+		for k := next; k < len(perm); k++ {
+			if perm[k] == ti {
+				perm[k], perm[next] = perm[next], perm[k]
+				break
+			}
+		}
+		if perm[next] != ti {
+			return false
+		}
+		register()
+		_, ok := m.ids[ti]
+		return ok
+	}
+	// entities that stay in the world across steps (universe types only, so that the typed API can be used on them)
+	type tracked struct {
+		e   ecs.Entity
+		val map[int]int64
+		tgt map[int]int // index into ents, -1 = zero entity
+	}
+	var ents []*tracked
+	mappers := map[int]Mapper{}
+	mapperOf := func(c int) Mapper {
+		if mappers[c] == nil {
+			mappers[c] = MapInsts[c].New(w)
+		}
+		return mappers[c]
+	}
+	handle := func(i int) ecs.Entity {
+		if i < 0 {
+			return ecs.Entity{}
+		}
+		return ents[i].e
+	}
+	// checkTracked compares every tracked entity, through the ID-based API, Map[T] and Filter1[T], with the model
+	checkTracked := func(where string) {
+		for c := 0; c < comps.N; c++ {
+			idx, ok := m.ids[c]
+			if !ok {
+				continue
+			}
+			id := mkIDOf(w, c)
+			if id.Index() != idx {
+				failf("registry|typed|id", "%s: universe type %s registered as %d now maps to %d", where, comps.All[c].Name, idx, id.Index())
+			}
+			mp := mapperOf(c)
+			want := 0
+			for i, tr := range ents {
+				if tr == nil {
+					continue
+				}
+				v, has := tr.val[c]
+				if has {
+					want++
+				}
+				if u.Has(tr.e, id) != has {
+					failf("registry|typed|unsafe-has", "%s: Unsafe.Has(#%d, %s)=%v, model %v", where, i, comps.All[c].Name, !has, has)
+				}
+				if mp.HasAll(tr.e) != has {
+					failf("registry|typed|map-has", "%s: Map[%s].HasAll(#%d)=%v, model %v (%d types registered)", where, comps.All[c].Name, i, !has, has, len(m.order))
+				}
+				var ptr unsafe.Pointer
+				if p := try(func() { ptr = mp.Get(tr.e)[0] }); p != nil {
+					failf("registry|typed|map-get-panic", "%s: Map[%s].Get(#%d) panicked: %v (%d types registered)", where, comps.All[c].Name, i, p, len(m.order))
+				}
+				if (ptr != nil) != has {
+					failf("registry|typed|map-get-nil", "%s: Map[%s].Get(#%d) nil=%v, model has=%v", where, comps.All[c].Name, i, ptr == nil, has)
+				}
+				if !has {
+					continue
+				}
+				if comps.All[c].Type.Size() > 0 {
+					if up := u.Get(tr.e, id); up != ptr {
+						failf("registry|typed|map-get-pointer", "%s: Map[%s].Get(#%d) and Unsafe.Get return different storage (%d types registered)", where, comps.All[c].Name, i, len(m.order))
+					}
+					if got := comps.GetV(c, ptr); got != v {
+						failf("registry|typed|map-get-value", "%s: Map[%s].Get(#%d) reads %d, written %d", where, comps.All[c].Name, i, got, v)
+					}
+				}
+				if comps.All[c].Relation {
+					wt := handle(tr.tgt[c])
+					if got := u.GetRelation(tr.e, id); got != wt {
+						failf("registry|typed|unsafe-relation", "%s: Unsafe.GetRelation(#%d, %s)=%v, model %v", where, i, comps.All[c].Name, got, wt)
+					}
+					if got := mp.GetRelation(tr.e, 0); got != wt {
+						failf("registry|typed|map-relation", "%s: Map[%s].GetRelation(#%d)=%v, model %v", where, comps.All[c].Name, i, got, wt)
+					}
+				}
+			}
+			// Filter1[T]
+			for fi := range FilterInsts {
+				if FilterInsts[fi].Arity != 1 || FilterInsts[fi].Comps[0] != c {
+					continue
+				}
+				q := FilterInsts[fi].New(w).Query(nil)
+				if n := q.Count(); n != want {
+					q.Close()
+					failf("registry|typed|filter-count", "%s: Filter1[%s] counts %d, model %d (%d types registered)", where, comps.All[c].Name, n, want, len(m.order))
+				}
+				seen := 0
+				for q.Next() {
+					var tr *tracked
+					for _, x := range ents {
+						if x != nil && x.e == q.Entity() {
+							tr = x
+						}
+					}
+					v, has := 0, false
+					if tr != nil {
+						vv, h := tr.val[c]
+						v, has = int(vv), h
+					}
+					if !has {
+						q.Close()
+						failf("registry|typed|filter-entity", "%s: Filter1[%s] yields %v which does not have the component", where, comps.All[c].Name, q.Entity())
+					}
+					if comps.All[c].Type.Size() > 0 {
+						if got := comps.GetV(c, q.Get()[0]); got != int64(v) {
+							q.Close()
+							failf("registry|typed|filter-value", "%s: Filter1[%s] reads %d for %v, written %d", where, comps.All[c].Name, got, q.Entity(), v)
+						}
+					}
+					seen++
+				}
+				if seen != want {
+					failf("registry|typed|filter-visits", "%s: Filter1[%s] visited %d, model %d", where, comps.All[c].Name, seen, want)
+				}
+				break
+			}
+		}
+	}
+	valSeq := int64(1000)
 	// prefill so that the interesting region is reached
 	pre := rapid.SampledFrom([]int{0, 0, 3, max/4 - 2, max - 70, max - 3, max - 1, max}).Draw(rt, "prefill")
 	for i := 0; i < pre; i++ {
@@ -138,6 +274,7 @@ func testRegistry(rt *rapid.T, st *RunStats) {
 			for i := 0; i < n && next < nRegTypes-1; i++ {
 				register()
 			}
+			checkTracked("after register")
 		},
 		"lookup": func(t *rapid.T) {
 			if len(m.order) == 0 {
@@ -166,6 +303,107 @@ func testRegistry(rt *rapid.T, st *RunStats) {
 					failf("registry|lookup|ids", "ComponentIDs[%d]=%d", i, x.Index())
 				}
 			}
+		},
+		"populate": func(t *rapid.T) {
+			// entities over universe types (registered now if they are not yet), kept across steps; relation targets
+			// are other kept entities, so that relation archetypes get several tables
+			live := 0
+			for _, tr := range ents {
+				if tr != nil {
+					live++
+				}
+			}
+			if live >= 14 {
+				t.Skip()
+			}
+			cs := rapid.SliceOfNDistinct(rapid.IntRange(0, comps.N-1), 1, 3, rapid.ID[int]).Draw(t, "universeTypes")
+			if rapid.Bool().Draw(t, "withRelation") {
+				r := rapid.SampledFrom(listOf(comps.RelMask)).Draw(t, "relationType")
+				dup := false
+				for _, c := range cs {
+					dup = dup || c == r
+				}
+				if !dup {
+					cs = append(cs, r)
+				}
+			}
+			var use []int
+			for _, c := range cs {
+				if registerType(c) {
+					use = append(use, c)
+				}
+			}
+			if len(use) == 0 {
+				t.Skip()
+			}
+			sortInts(use)
+			n := rapid.IntRange(1, 3).Draw(t, "entities")
+			for k := 0; k < n; k++ {
+				tr := &tracked{val: map[int]int64{}, tgt: map[int]int{}}
+				var ids []ecs.ID
+				var rels []ecs.Relation
+				for _, c := range use {
+					id := mkIDOf(w, c)
+					ids = append(ids, id)
+					if comps.All[c].Relation {
+						tg := -1
+						var cand []int
+						for i, x := range ents {
+							if x != nil {
+								cand = append(cand, i)
+							}
+						}
+						if len(cand) > 0 && rapid.IntRange(0, 4).Draw(t, "zeroTarget") != 0 {
+							tg = rapid.SampledFrom(cand).Draw(t, "target")
+						}
+						tr.tgt[c] = tg
+						rels = append(rels, ecs.RelID(id, handle(tg)))
+					}
+				}
+				if p := try(func() { tr.e = u.NewEntityRel(ids, rels...) }); p != nil {
+					failf("registry|typed|create", "creating an entity with universe types %v panicked: %v", use, p)
+				}
+				for _, c := range use {
+					valSeq++
+					tr.val[c] = 0
+					if comps.All[c].Type.Size() > 0 {
+						comps.SetV(c, u.Get(tr.e, mkIDOf(w, c)), valSeq)
+						tr.val[c] = comps.GetV(c, u.Get(tr.e, mkIDOf(w, c)))
+					}
+				}
+				ents = append(ents, tr)
+			}
+			checkTracked("after populate")
+			cls["typed-use-of-universe-types"] = true
+			if len(m.order) > comps.N+8 {
+				cls["typed-use-after-late-registration"] = true
+			}
+		},
+		"removeTracked": func(t *rapid.T) {
+			var cand []int
+			for i, x := range ents {
+				if x != nil {
+					cand = append(cand, i)
+				}
+			}
+			if len(cand) == 0 {
+				t.Skip()
+			}
+			i := rapid.SampledFrom(cand).Draw(t, "tracked")
+			if p := try(func() { w.RemoveEntity(ents[i].e) }); p != nil {
+				failf("registry|typed|remove-entity", "RemoveEntity panicked: %v", p)
+			}
+			ents[i] = nil
+			for _, x := range ents {
+				if x != nil {
+					for c, tg := range x.tgt {
+						if tg == i {
+							x.tgt[c] = -1
+						}
+					}
+				}
+			}
+			checkTracked("after removeTracked")
 		},
 		"registerLocked": func(t *rapid.T) {
 			if len(m.order) >= max || next >= nRegTypes-1 {
@@ -418,8 +656,11 @@ func idxs(ids []ecs.ID) []uint8 {
 func TestC18(t *testing.T) {
 	st := NewRunStats("C18")
 	st.Rule = fmt.Sprintf("registration sequences of up to %d+ distinct types (static universe, generated array and struct types) in drawn orders with look-ups interleaved, registrations under lock, "+
-		"entities/queries using the lowest, word-boundary and highest IDs through the ID-based API, and resource add/get/has/remove histories, against a map model; mask width of this build: %d; "+
+		"entities/queries using the lowest, word-boundary and highest IDs through the ID-based API, kept entities over the static universe types (registered at drawn moments, also after relation archetypes "+
+		"have several tables) compared through Unsafe, Map[T] and Filter1[T] after every registration, and resource add/get/has/remove histories, against a map model; mask width of this build: %d; "+
 		"non-trivial = the case registers exactly the maximum number of component types and creates, queries and removes an archetype that contains the highest ID; distinct = distinct type order and prefill", MaskBits, MaskBits)
 	defer st.Write()
 	rapid.Check(t, func(rt *rapid.T) { testRegistry(rt, st) })
 }
+
+func mkIDOf(w *ecs.World, c int) ecs.ID { return ecs.TypeID(w, comps.All[c].Type) }
